@@ -250,8 +250,15 @@ GROUPS = {
                                            ["self.table", "self.n_elements", "self.rng", "log"], "flowcall"),
                   "call_restore": ("cuckoo_restore_state {self.table} log", "U", ["self.table"], "flowcont")}),
  ],
+ "k_qf_ops": [
+    dict(file="src/filters/quotientfilter.rs", fn="scan", lean="qf_scan", mode="flow", hoist_index=True,
+         self=[("is_occupied", "L(B)"), ("is_continuation", "L(B)"), ("is_shifted", "L(B)"), ("remainders", "L(N)")], self_mut=[],
+         returns="S:ScanResult", fuel="{self.is_occupied}.length + 1",
+         update_calls={"self.incr": "KOps.ringIncr {self.is_occupied}.length {0}", "self.decr": "KOps.ringDecr {self.is_occupied}.length {0}"}),
+ ],
 }
 STRUCTS = {
+    "ScanResult": {"lean": "Pds.QfScan", "fields": [("present", "B"), ("position", "N"), ("start_of_run", "O(N)")]},
     "Centroid": {"lean": "Pds.TDigest.Centroid α", "fields": [("sum", "F"), ("count", "F")]},
 }
 
@@ -259,7 +266,7 @@ STRUCTS = {
 MODULE = {"k_td_core": "TdCore", "k_td_scale": "TdScale", "k_sizing_bloom": "SizingBloom", "k_sizing_cms": "SizingCms",
           "k_sizing_lossy": "SizingLossy", "k_sizing_cuckoo": "SizingCuckoo", "k_lossy_window": "LossyWindow", "k_alloc": "Alloc", "k_hll_add": "HllAdd",
           "k_hll_err": "HllErr", "k_hashiter": "HashIter", "k_cuckoo": "Cuckoo", "k_quotient": "Quotient", "k_reservoir": "Reservoir",
-          "k_reservoir_add": "ReservoirAdd", "k_td_read": "TdRead", "k_td_merge": "TdMerge", "k_bloom_ops": "BloomOps", "k_cms_ops": "CmsOps", "k_cuckoo_ops": "CuckooOps", "k_clear": "Clear"}
+          "k_reservoir_add": "ReservoirAdd", "k_td_read": "TdRead", "k_td_merge": "TdMerge", "k_bloom_ops": "BloomOps", "k_cms_ops": "CmsOps", "k_cuckoo_ops": "CuckooOps", "k_clear": "Clear", "k_qf_ops": "QfOps"}
 IMPORTS = {"k_td_read": ["TdCore"], "k_td_merge": ["TdCore"]}
 # hand-written modules a generated module needs (type definitions only)
 LEAN_IMPORTS = {"k_clear": ["Pds.Model.TDigest"], "k_cuckoo_ops": ["Pds.Model.Cuckoo"], "k_reservoir_add": ["Pds.Model.Reservoir"], "k_td_read": ["Pds.Model.TDigest"], "k_td_merge": ["Pds.Model.TDigest"]}
